@@ -21,6 +21,7 @@ import (
 	"sort"
 	"sync"
 	"sync/atomic"
+	"time"
 
 	"github.com/daeuniverse/dae/common/consts"
 	"github.com/daeuniverse/dae/component/routing"
@@ -60,13 +61,13 @@ func l4Of(s string) consts.L4ProtoType {
 func pname16(s string) (o [16]uint8) { copy(o[:], s); return }
 
 type caseDetail struct {
-	Program *vroute.Program `json:"program"`
-	Config  string          `json:"config"`
-	Packet  pktJSON         `json:"packet"`
-	Want    string          `json:"want"`
-	Got     string          `json:"got"`
-	HitRule int             `json:"reference_hit_rule"`
-	MustRulesHit int        `json:"reference_must_rules_hit"`
+	Program      *vroute.Program `json:"program"`
+	Config       string          `json:"config"`
+	Packet       pktJSON         `json:"packet"`
+	Want         string          `json:"want"`
+	Got          string          `json:"got"`
+	HitRule      int             `json:"reference_hit_rule"`
+	MustRulesHit int             `json:"reference_must_rules_hit"`
 }
 
 type pktJSON struct {
@@ -230,11 +231,19 @@ func (c *checker) runSpace(s *vroute.Space, opts vroute.PacketOpts, trackText bo
 	n := s.Len()
 	e0, p0 := c.evals.Load(), c.programs.Load()
 	stride := n/3 + 1
+	var done atomic.Int64
 	c.r.ParallelFor(n, func(i int) {
 		if c.mism.Load() > maxRecorded {
 			return
 		}
+		if c.r.OverBudget(20*time.Minute, 120*time.Minute) { // runaway guard only (a heavily loaded host), never an oracle
+			c.r.CapHit("internal time budget reached inside space " + s.Name)
+			return
+		}
 		c.one(s.At(i), opts, trackText, i%stride == stride/2)
+		if d := done.Add(1); n >= 1000000 && d%int64(n/5) == 0 && d < int64(n) {
+			fmt.Printf("C01: space %-10s %d%% t=%.0fs\n", s.Name, d*100/int64(n), c.r.Elapsed().Seconds())
+		}
 	})
 	c.r.Set("space_"+s.Name+"_programs", int(c.programs.Load()-p0))
 	c.r.Set("space_"+s.Name+"_decisions", int(c.evals.Load()-e0))
